@@ -1,4 +1,5 @@
 CONSTANT N = 120
+CONSTANT AllWide = TRUE
 INIT Init
 NEXT Next
 INVARIANT NativeOK
